@@ -604,31 +604,39 @@ Section Orders.
   Qed.
 
   (** * Pruning pages with the stored bounds *)
-  Hypothesis tmin_lower : forall v, cmp (tmin v) v <= 0.
-  Hypothesis tmax_upper : forall v, cmp v (tmax v) <= 0.
+  Variable good : V -> Prop.          (* well-formed values: bytes below 256, right length *)
+  Hypothesis tmin_lower : forall v, good v -> cmp (tmin v) v <= 0.
+  Hypothesis tmax_upper : forall v, good v -> cmp v (tmax v) <= 0.
+
+  Lemma non_nulls_in (l : list (option V)) v : In v (non_nulls l) <-> In (Some v) l.
+  Proof.
+    induction l as [|[x|] r IH]; cbn.
+    - tauto.
+    - rewrite IH. split; intros [H|H]; auto; left; congruence.
+    - rewrite IH. split; [auto|]. intros [H|H]; [discriminate|exact H].
+  Qed.
 
   Theorem skip_safe sw (pages : list (list (option V))) p vals v :
-    nth_error pages p = Some vals -> In (Some v) vals -> nan v = false ->
+    nth_error pages p = Some vals -> (forall x, In (Some x) vals -> good x) ->
+    In (Some v) vals -> nan v = false ->
     may_skip cmp (index_pages zero tmin tmax ord (map (page_of_values cmp nan sw) pages)) p v = false.
   Proof.
-    intros Hp Hv Nv.
+    intros Hp Hg Hv Nv.
     assert (Hq : nth_error (map (page_of_values cmp nan sw) pages) p = Some (page_of_values cmp nan sw vals))
       by (apply map_nth_error; exact Hp).
     destruct (index_counts_exact _ _ _ Hq) as (_ & Hnp & Hmn & Hmx).
     unfold may_skip. rewrite Hnp, Hmn, Hmx. clear Hnp Hmn Hmx Hq.
-    assert (Hin : In v (non_nulls vals)).
-    { clear -Hv. induction vals as [|[x|] r IH]; cbn in *.
-      - destruct Hv.
-      - destruct Hv as [H|H]; [injection H as ->; left; reflexivity|right; auto].
-      - destruct Hv as [H|H]; [discriminate|auto]. }
+    assert (Hin : In v (non_nulls vals)) by (apply non_nulls_in; exact Hv).
     assert (Hlen : (length (non_nulls vals) <= length vals)%nat).
     { clear. induction vals as [|[x|] r IH]; cbn; lia. }
     unfold entry_min, entry_max, page_of_values. cbn [pi_bounds pi_num_values pi_num_nulls].
     destruct (page_bounds cmp nan sw (non_nulls vals)) as [[mn mx]|] eqn:B.
     2:{ apply page_bounds_none in B. rewrite B in Hin. destruct Hin. }
-    destruct (page_bounds_sound V cmp nan cmp_opp cmp_trans cmp_nan sw _ _ _ B) as (W & _ & _ & NN).
+    destruct (page_bounds_sound V cmp nan cmp_opp cmp_trans cmp_nan sw _ _ _ B) as (W & Imn & Imx & NN).
     destruct (W v Hin Nv) as [H1 H2].
     destruct (NN (ex_intro _ v (conj Hin Nv))) as [Nmn Nmx].
+    assert (Gmn : good mn) by (apply Hg, non_nulls_in; exact Imn).
+    assert (Gmx : good mx) by (apply Hg, non_nulls_in; exact Imx).
     assert (L1 : cmp (tmin mn) v <= 0) by (apply (cmp_trans _ mn _); auto).
     assert (L2 : cmp v (tmax mx) <= 0) by (apply (cmp_trans _ mx _); auto).
     assert (Hnn : (Z.of_nat (length vals) =? Z.of_nat (length vals - length (non_nulls vals))) = false).
@@ -638,5 +646,4 @@ Section Orders.
     { apply cmp_opp in C. lia. }
     destruct (Z.gtb_spec (cmp v (tmax mx)) 0); [lia|reflexivity].
   Qed.
-
 End Orders.
